@@ -512,7 +512,8 @@ class RawFileSystem(FileSystem[str]):
 
     def _resolve_path(self, path: str) -> str:
         """Get the absolute path."""
-        abs_path = os.path.abspath(os.path.join(self.path, path))
+        # Both slashes are separators in every filesystem, also on POSIX.
+        abs_path = os.path.abspath(os.path.join(self.path, path.replace('\\', '/')))
         if self.constrain_path and abs_path != self.path:
             # Compare whole path components: "/root_evil" starts with "/root", but is a sibling.
             # join() adds the trailing separator, unless the root already ends with one ("/").
